@@ -519,6 +519,10 @@ func vGenNoteLayout(t *rapid.T, o vLayoutOpts, label string) vLayout {
 
 var vNoteWords = []string{"barcode", "boiling time", "12 min", "0000000000000", "source", "label", "see page 3", "вкусно", "brand X", "a-b", "x.y", "n/a", "50%", "home made", "20% of the budget", "at 7", "12h30"}
 
+// vNoteValues: what may follow the colon of a named note; a value is kept as written (a leading minus sign, quote or
+// colon belongs to it).
+var vNoteValues = append(append([]string{}, vNoteWords...), "-5 C, snow", "-200 kcal", "\"no\" twice", ":7 sharp", "- bullet", "+3", "-0.5", "\"quoted\" and more", "#1 of 3", "- - x")
+
 func vGenNoteLine(t *rapid.T, o vLayoutOpts, label string) vLine {
 	w := func(l string) string { return vNoteWords[rapid.IntRange(0, len(vNoteWords)-1).Draw(t, l)] }
 	if !o.NoLong && rapid.IntRange(0, 39).Draw(t, label+".long") == 0 {
@@ -530,7 +534,7 @@ func vGenNoteLine(t *rapid.T, o vLayoutOpts, label string) vLine {
 		return vLine{Kind: vkTNote, Text: "", L: vGenNoteLayout(t, o, label)}
 	}
 	if rapid.Bool().Draw(t, label+".kv") {
-		return vLine{Kind: vkNote, Name: w(label + ".k"), Text: w(label + ".v"), L: vGenNoteLayout(t, o, label)}
+		return vLine{Kind: vkNote, Name: w(label + ".k"), Text: vNoteValues[rapid.IntRange(0, len(vNoteValues)-1).Draw(t, label+".v")], L: vGenNoteLayout(t, o, label)}
 	}
 	return vLine{Kind: vkTNote, Text: w(label + ".t"), L: vGenNoteLayout(t, o, label)}
 }
